@@ -81,3 +81,21 @@ CONTRACTS = [
     Contract("wntr.network.elements:Junction/Tank.remove_leak", P,
              [_remove_leak_case(c, a) for c in (Junction, Tank) for a in (True, False)]),
 ]
+
+
+# ---------------------------------------------------------------------------- bounded: the pressure-demand curve (C07) and the leak law (C08) on real runs
+
+from pyvc.runner import Bounded
+
+
+def _runs(which, i, n):
+    def run(tier, seed):
+        import sys, os
+        sys.path.insert(0, os.path.dirname(os.path.dirname(os.path.abspath(__file__))))
+        from bounded import c07_c08_runs
+        return getattr(c07_c08_runs, which)(tier, seed, i, n)
+    return run
+
+
+BOUNDED = [Bounded("C07.curve_on_runs[%d/2]" % i, ["C07"], _runs("run_c07", i, 2), kind="real simulator on generated networks (not exhaustive)") for i in range(2)] + \
+          [Bounded("C08.leaks_on_runs[%d/2]" % i, ["C08"], _runs("run_c08", i, 2), kind="real simulator on generated networks (not exhaustive)") for i in range(2)]
